@@ -7,6 +7,7 @@ import (
 	"reflect"
 	"sort"
 
+	"github.com/openconfig/goyang/pkg/yang"
 	"github.com/openconfig/ygot/ygot"
 	"github.com/openconfig/ygot/ytypes"
 )
@@ -31,6 +32,11 @@ type Pkg struct {
 	Unions map[string][]reflect.Type
 	// Structs maps a generated struct name to its type.
 	Structs map[string]reflect.Type
+	// Unzip returns the schema tree embedded in the generated code (UnzipSchema).
+	Unzip func() (map[string]*yang.Entry, error)
+	// PathRoot returns the root of the generated path-struct API (DeviceRoot), when path
+	// structs were generated into the package.
+	PathRoot func() interface{}
 }
 
 var pkgs = map[string]*Pkg{}
